@@ -250,6 +250,47 @@ func LongHarness(mode Mode) mc.Harness {
 	}
 }
 
+// CursorLongHarness (C03): Tree.Cursor, Next, Prev, HasNext, HasPrev on the
+// trees that operation histories actually produce at every balance factor
+// (shapes with stale size/limit bookkeeping after removals, rebuilt subtrees),
+// complementing the exhaustive shape enumeration that uses insert-only trees.
+func CursorLongHarness() mc.Harness {
+	name := "cursor-long"
+	return mc.Harness{
+		Name: name,
+		Explore: func(r *mc.Run) {
+			var cfgs []LongCfg
+			var devs []int
+			for _, b := range mc.Pick(r, []int{0, 100, 250, 500, 800, 1000}, []int{0, 50, 100, 250, 333, 500, 700, 850, 950, 999, 1000}) {
+				for _, p := range [][2]string{{"asc", "asc"}, {"desc", "zigzag"}, {"zigzag", "desc"}, {"inside", "inside"}, {"asc", "desc"}} {
+					cfgs = append(cfgs, LongCfg{Beta: b, N: mc.Pick(r, 16, 24), Fill: p[0], Drain: p[1], Cursor: true})
+					devs = append(devs, 1)
+					cfgs = append(cfgs, LongCfg{Beta: b, N: mc.Pick(r, 64, 160), Fill: p[0], Drain: p[1], Cursor: true})
+					devs = append(devs, 0)
+				}
+			}
+			var execs, steps int64
+			mc.ParallelFor(len(cfgs), r.Workers, func(i int) {
+				st := &LongStats{MinSlack: 1 << 30}
+				res := (&mc.DFS{Name: name, Config: cfgs[i], MaxDev: devs[i], Workers: 1, Body: LongBody(cfgs[i], st)}).Run(r)
+				atomic.AddInt64(&execs, res.Executions)
+				atomic.AddInt64(&steps, st.Steps)
+			})
+			r.AddEval(execs, steps, execs, execs-int64(len(cfgs)))
+			r.Bound("families", len(cfgs))
+			r.Rule("the long-history choice tree of lib/streeh (fill, drain, refill; every single deviation at N=16/24, none at N=64/160) with the cursor oracle after every step: Cursor(k) for every present key and for absent keys, HasNext/HasPrev, Next steps, full Next/Prev walks from both ends and the middle; non-trivial = executions with a deviation")
+			r.Sample(map[string]any{"beta": 250, "history": "Add 1..13 ascending, Remove 1,2,3,4,5,6,8, then Cursor(13)"})
+		},
+		Replay: func(c mc.Case) *mc.Failure {
+			var cf LongCfg
+			if err := mc.Unmarshal(c.Config, &cf); err != nil {
+				return mc.Failf(-1, "bad config: %v", err)
+			}
+			return (&mc.DFS{Name: name, Config: cf, Body: LongBody(cf, nil)}).ReplayDevs(c)
+		},
+	}
+}
+
 // ---- bulk construction: stree.New on every short key sequence (E4) ----
 
 // NewTrace is one bulk-construction case.
